@@ -845,7 +845,7 @@ theorem registerConst_inv {s : St} (hI : Inv s) {r : Nat} (hr : r ∉ s.constEve
   · intro r'
     show upd s.constRc r 1 r' = (r :: s.rtConst).count r' + s.alive.countP (constPred s.info r')
     by_cases e : r' = r
-    · subst e; rw [upd_same]; simp [List.count_cons]; omega
+    · subst e; rw [upd_same]; simp; omega
     · rw [upd_other _ _ _ _ e]
       have : (r == r') = false := by simpa using fun x => e x.symm
       simp [List.count_cons, this]; exact hc.constRc_eq r'
@@ -869,7 +869,7 @@ theorem registerClos_inv {s : St} (hI : Inv s) {r : Nat} (hr : r ∉ s.closEver)
   · intro r'
     show upd s.closRc r 1 r' = (r :: s.rtClos).count r' + s.alive.countP (closPred s.info r')
     by_cases e : r' = r
-    · subst e; rw [upd_same]; simp [List.count_cons]; omega
+    · subst e; rw [upd_same]; simp; omega
     · rw [upd_other _ _ _ _ e]
       have : (r == r') = false := by simpa using fun x => e x.symm
       simp [List.count_cons, this]; exact hc.closRc_eq r'
